@@ -78,6 +78,11 @@ impl io::Read for ScriptSource {
                 buf[..k].copy_from_slice(&self.stream[self.rd..self.rd + k]);
                 self.log.push(json!({"t": "pipe", "e": {"ev": "read", "offered": buf.len(), "n": k, "pos": self.rd, "data": self.stream[self.rd..self.rd + k].to_vec()}}));
                 self.rd += k;
+                if k < n && k == buf.len() && k > 0 {
+                    // the code offered less room than the plan assumed (a different, equally legitimate window
+                    // position): the source still holds the rest of this chunk and hands it out on the next call
+                    self.script.push_front(POut::Data(n - k));
+                }
                 Ok(k)
             }
             Some(POut::Eof) | Some(POut::Zero) => {
@@ -217,15 +222,68 @@ impl<P: io::Write + Unpin> futures::io::AsyncWrite for NeverPending<P> {
     }
 }
 
+/// Like NeverPending, but every pipe call answers Pending once before it is carried out (the task is
+/// simply polled again): partial progress has to survive across polls.
+pub struct PendingFirst<P> {
+    pub inner: P,
+    /// false: never Pending (behaves like NeverPending)
+    pub on: bool,
+    armed: bool,
+}
+impl<P> PendingFirst<P> {
+    pub fn new(inner: P, on: bool) -> Self {
+        PendingFirst { inner, on, armed: false }
+    }
+    fn gate(&mut self) -> bool {
+        if !self.on {
+            return false;
+        }
+        self.armed = !self.armed;
+        self.armed
+    }
+}
+impl<P: io::Read + Unpin> futures::io::AsyncRead for PendingFirst<P> {
+    fn poll_read(mut self: std::pin::Pin<&mut Self>, _cx: &mut std::task::Context<'_>, buf: &mut [u8]) -> std::task::Poll<io::Result<usize>> {
+        if self.gate() { return std::task::Poll::Pending; }
+        std::task::Poll::Ready(self.inner.read(buf))
+    }
+}
+impl<P: io::Write + Unpin> futures::io::AsyncWrite for PendingFirst<P> {
+    fn poll_write(mut self: std::pin::Pin<&mut Self>, _cx: &mut std::task::Context<'_>, buf: &[u8]) -> std::task::Poll<io::Result<usize>> {
+        if self.gate() { return std::task::Poll::Pending; }
+        std::task::Poll::Ready(self.inner.write(buf))
+    }
+    fn poll_flush(mut self: std::pin::Pin<&mut Self>, _cx: &mut std::task::Context<'_>) -> std::task::Poll<io::Result<()>> {
+        if self.gate() { return std::task::Poll::Pending; }
+        std::task::Poll::Ready(self.inner.flush())
+    }
+    fn poll_close(self: std::pin::Pin<&mut Self>, _cx: &mut std::task::Context<'_>) -> std::task::Poll<io::Result<()>> {
+        std::task::Poll::Ready(Ok(()))
+    }
+}
+
+/// Poll a future by hand (no-op waker) until it is ready; `None` if it is still pending after `max` polls.
+pub fn poll_to_end<F: std::future::Future>(f: F, max: usize) -> Option<F::Output> {
+    let waker = futures::task::noop_waker();
+    let mut cx = std::task::Context::from_waker(&waker);
+    let mut f = Box::pin(f);
+    for _ in 0..max {
+        if let std::task::Poll::Ready(v) = f.as_mut().poll(&mut cx) {
+            return Some(v);
+        }
+    }
+    None
+}
+
 /// The async receiver over the same script; returns only the sequence of returns (no trace).
-pub fn run_async_receiver<T: Shape + ?Sized>(stream: &[u8], script: Vec<POut>, maxlen: usize, cap: usize, budget: usize) -> Obs<Vec<Value>> {
+pub fn run_async_receiver<T: Shape + ?Sized>(stream: &[u8], script: Vec<POut>, maxlen: usize, cap: usize, budget: usize, pending: bool) -> Obs<Vec<Value>> {
     guarded(|| {
         let _ = verif::take();
-        let src = NeverPending(ScriptSource::new(stream.to_vec(), script, budget));
+        let src = PendingFirst::new(ScriptSource::new(stream.to_vec(), script, budget), pending);
         let default_cap = 2 * maxlen.max(T::MIN_SIZE);
         let mut rx = if cap == default_cap { flatty_io::AsyncReceiver::<T, _>::io(src, maxlen) } else { flatty_io::AsyncReceiver::<T, _>::new(flatty_io::IoBuffer::new(src, cap, T::ALIGN)) };
         let mut rets = vec![];
-        futures::executor::block_on(async {
+        let done = poll_to_end(async {
             loop {
                 let (ret, stop) = match rx.recv().await {
                     Ok(g) => {
@@ -248,7 +306,10 @@ pub fn run_async_receiver<T: Shape + ?Sized>(stream: &[u8], script: Vec<POut>, m
                     break;
                 }
             }
-        });
+        }, 8 * budget + 64);
+        if done.is_none() {
+            panic!("{}", BUDGET);
+        }
         let _ = verif::take();
         rets
     })
@@ -323,7 +384,7 @@ fn script_from_recv_path(path: &[Value]) -> (Vec<POut>, Vec<Value>) {
                 script.push(POut::Err(err_kind(ev["kind"].as_str().unwrap_or(""))));
                 rets.push(json!({"e": "rerr"}));
             }
-            "closed" => {
+            "closed" | "eof" => {
                 script.push(POut::Eof);
                 rets.push(json!({"e": "closed"}));
             }
@@ -349,7 +410,7 @@ impl<'a> Visitor for IoRecvVisitor<'a> {
         let valid = header["nmsg"].as_i64().unwrap_or(-1) >= 0;
         let path = arr(&case["path"]);
         let (script, exp_rets) = script_from_recv_path(path);
-        let nfaults = path.iter().filter(|e| e["e"] == "rerr").count();
+        let nfaults = path.iter().filter(|e| e["e"] == "rerr" || e["e"] == "eof").count();
         let class = format!("iorecv.{}.{}{}", if valid { "valid" } else { "arbitrary" }, case["final"].as_str().unwrap_or(""), if nfaults > 0 { ".faults" } else { "" });
         out.count(&class);
         out.sample(&class, &json!({"header": header, "path": case["path"], "final": case["final"]}));
@@ -362,7 +423,7 @@ impl<'a> Visitor for IoRecvVisitor<'a> {
             // C08: the async receiver over a pipe that is always ready, under every chunking and buffer capacity
             out.count("judged.C08");
             out.count("ioasync.recv-paths");
-            match run_async_receiver::<T>(&stream, script.clone(), maxlen, cap, budget) {
+            match run_async_receiver::<T>(&stream, script.clone(), maxlen, cap, budget, false) {
                 Obs::Panic(m) => out.viol("C08", "panic", id, "async-recv", format!("async recv / guard drop panicked: {}", m)),
                 Obs::Ret(arets) => {
                     let msgs = arr(&header["msgs"]);
@@ -448,20 +509,24 @@ impl<'a> Visitor for IoRecvVisitor<'a> {
                 mi += 1;
             }
         }
-        // the async receiver runs the same algorithm: over the same script (a pipe that never answers
-        // Pending) it must return exactly what the blocking one returned
-        match run_async_receiver::<T>(&stream, script2, maxlen, cap, budget) {
-            Obs::Panic(m) => {
-                if m.contains(BUDGET) {
-                    out.viol(p, "no-return", id, "async-recv", "async recv did not return within the pipe-call budget".into());
-                } else {
-                    out.viol(p, "panic", id, "async-recv", format!("async recv / guard drop panicked: {}", m));
+        // the async receiver runs the same algorithm: over the same script -- through a pipe that never answers
+        // Pending, and through one that answers Pending once before every call -- it must return exactly what the
+        // blocking one returned
+        for pending in [false, true] {
+            let variant = if pending { "async-recv(pending-first)" } else { "async-recv" };
+            match run_async_receiver::<T>(&stream, script2.clone(), maxlen, cap, budget, pending) {
+                Obs::Panic(m) => {
+                    if m.contains(BUDGET) {
+                        out.viol(p, "no-return", id, variant, "async recv did not return within the poll / pipe-call budget".into());
+                    } else {
+                        out.viol(p, "panic", id, variant, format!("async recv / guard drop panicked: {}", m));
+                    }
                 }
-            }
-            Obs::Ret(arets) => {
-                let strip = |v: &Vec<Value>| -> Vec<Value> { v.iter().map(|r| json!({"e": r["e"], "size": r["size"], "v": r["v"]})).collect() };
-                if strip(&arets) != strip(&run.rets) {
-                    out.viol(p, "returns", id, "async-differs", format!("async receiver returned {:?}, blocking receiver {:?} on the same script", kinds(&arets), kinds(&run.rets)));
+                Obs::Ret(arets) => {
+                    let strip = |v: &Vec<Value>| -> Vec<Value> { v.iter().map(|r| json!({"e": r["e"], "size": r["size"], "v": r["v"]})).collect() };
+                    if strip(&arets) != strip(&run.rets) {
+                        out.viol(p, "returns", id, &format!("{}-differs", variant), format!("async receiver returned {:?}, blocking receiver {:?} on the same script", kinds(&arets), kinds(&run.rets)));
+                    }
                 }
             }
         }
@@ -524,11 +589,12 @@ pub struct SendRun {
 }
 
 pub fn run_blocking_sender<T: Shape + ?Sized>(msgs: &[Value], script: Vec<POut>, maxlen: usize, budget: usize) -> Obs<SendRun> {
-    run_sender::<T>(msgs, script, maxlen, budget, false)
+    run_sender::<T>(msgs, script, maxlen, budget, 0)
 }
 
 /// `asyncv`: use the async Sender over the same scripted sink (it never answers Pending).
-pub fn run_sender<T: Shape + ?Sized>(msgs: &[Value], script: Vec<POut>, maxlen: usize, budget: usize, asyncv: bool) -> Obs<SendRun> {
+pub fn run_sender<T: Shape + ?Sized>(msgs: &[Value], script: Vec<POut>, maxlen: usize, budget: usize, mode: u8) -> Obs<SendRun> {
+    let asyncv = mode > 0;
     let pipe = ScriptSink::new(script, budget);
     let st = pipe.st.clone();
     let empty = || SendRun { rets: vec![], real_msgs: vec![], sink: vec![], over_budget: false, calls_per_send: vec![], sink_after: vec![], poisoned: false };
@@ -565,8 +631,8 @@ pub fn run_sender<T: Shape + ?Sized>(msgs: &[Value], script: Vec<POut>, maxlen: 
             let was = sh.borrow().poisoned;
             sh.borrow_mut().poisoned = was || p;
         } else {
-            let mut tx = flatty_io::AsyncSender::<T, _>::io(NeverPending(pipe), maxlen);
-            futures::executor::block_on(async {
+            let mut tx = flatty_io::AsyncSender::<T, _>::io(PendingFirst::new(pipe, mode == 2), maxlen);
+            let done = poll_to_end(async {
                 for (i, m) in msgs.iter().enumerate() {
                     if tx.verif_buffer().verif_state().3 {
                         sh.borrow_mut().poisoned = true;
@@ -588,7 +654,10 @@ pub fn run_sender<T: Shape + ?Sized>(msgs: &[Value], script: Vec<POut>, maxlen: 
                     run.rets.push(if r.is_ok() { "ok".into() } else { "err".into() });
                     run.poisoned = tx.verif_buffer().verif_state().3;
                 }
-            });
+            }, 16 * budget + 64);
+            if done.is_none() {
+                panic!("{}", BUDGET);
+            }
             let p = tx.verif_buffer().verif_state().3;
             let was = sh.borrow().poisoned;
             sh.borrow_mut().poisoned = was || p;
@@ -692,9 +761,9 @@ impl<'a> Visitor for IoSendVisitor<'a> {
         out.count(&format!("judged.{}", p));
         let total: usize = imgs.iter().map(|m| arr(m).len()).sum();
         let budget = 4 * (total + msgs.len() + 4);
-        for asyncv in [false, true] {
-        let variant = if asyncv { "async-send" } else { "send" };
-        let run = match run_sender::<T>(msgs, script.clone(), maxlen, budget, asyncv) {
+        for mode in [0u8, 1, 2] {
+        let variant = ["send", "async-send", "async-send(pending-first)"][mode as usize];
+        let run = match run_sender::<T>(msgs, script.clone(), maxlen, budget, mode) {
             Obs::Panic(m) => {
                 if m.contains(BUDGET) {
                     out.viol(p, "no-return", id, variant, format!("send did not return within {} pipe calls under {:?}", budget, kinds_path(path)));
